@@ -43,6 +43,7 @@ func hasOwnMethod(n *types.Named, name string) bool {
 
 func runC15(c *Ctx, r *Run) {
 	r.Rule("CODEC-5", "marshal and unmarshal are inverse: a wire field written from one field of the object is restored into that field")
+	r.Rule("CODEC-6", "wire structs encode every field unconditionally (no omitempty / skipped keys): decoders fill pre-shaped values")
 	r.Rule("CODEC-2", "hand-written codecs agree: every wire-struct field is written on marshal and read on unmarshal; every field of the restored type is assigned")
 	r.Rule("CODEC-4", "reflectively encoded structs reachable from result types carry no unexported state")
 	r.Rule("ERR-1", "restore-path guard inventory: every recorded decode/validation rejection of the UnmarshalBinary implementations and validators is present and covers the success return")
@@ -292,6 +293,12 @@ func runC15(c *Ctx, r *Run) {
 				wst := W.Underlying().(*types.Struct)
 				for i := 0; i < wst.NumFields(); i++ {
 					f := W.Obj().Name() + "." + wst.Field(i).Name()
+					// CODEC-6: a wire field is always present in the encoding. UnmarshalBinary decodes into a struct that is
+					// pre-filled (group context, the receiver's current fields): a key the encoder may omit leaves the old value in place
+					tag := wst.Tag(i)
+					omitted := strings.Contains(tag, "omitempty") || strings.Contains(tag, `cbor:"-"`) || strings.Contains(tag, `cbor:"-,`)
+					r.Check("CODEC-6", key+"|always encodes "+f, c.Pos(wst.Field(i).Pos()), !omitted, "wire field "+f+" is encoded unconditionally",
+						"wire field "+f+" carries the tag `"+tag+"`: an empty value is left out of the bytes, and the decoder - which fills a pre-shaped struct - silently keeps whatever the receiver held before")
 					r.Check("CODEC-2", key+"|marshal writes "+f, c.Pos(mar.Pos()), written[f], "wire field "+f+" is filled by MarshalBinary", "wire field "+f+" is never written by MarshalBinary: it is encoded as zero and the restored object silently loses it")
 					r.Check("CODEC-2", key+"|unmarshal reads "+f, c.Pos(unm.Pos()), read[f], "wire field "+f+" is consumed by UnmarshalBinary", "wire field "+f+" is decoded but never used by UnmarshalBinary: the restored object silently loses it")
 				}
@@ -396,6 +403,7 @@ func runC15(c *Ctx, r *Run) {
 
 	r.Require("CODEC-2", 40)
 	r.Require("CODEC-5", 15)
+	r.Require("CODEC-6", 20)
 	r.Require("CODEC-4", 5)
 	r.Require("ERR-1", 25)
 	r.Require("OB-U2", 6)
